@@ -45,11 +45,25 @@
                            ANY file; `exec_eq_execG`: the machine above is the instance with two local modules;
     * `C19_deps_partial`   all of it put together: only `FreshFrame` (results depend on nothing but the files
                            the follower reads) is still assumed.
+  Runs on a damaged cache file, strictness, symbolic links (RattrModel/CacheRun.lean; last part of this file):
+    * `runB_real`, `C19_damaged_as_absent`, `C19_damaged_then_hit`  with the diagnostic levels of the code
+                           (`error.info`, badness 0 — Tie A `tieA_gate_diagnostics`) a run on a removed /
+                           truncated / non-JSON / wrong-shape cache file IS the run without a cache file under
+                           every `--strict` / `--threshold N`, and the next run hits;
+    * `runB_missFatal_state`, `runB_stuck`, `C19_cex_malformed_warning`, `C19_cex_malformed_error`  a fatal
+                           run leaves the file untouched, so a diagnostic of positive badness there is fatal for ever;
+    * `C19X_history` / `C19X_hit_sound` / `C19X_partial` / `C19X_deps_partial`  the history theorems over
+                           in-place edits seen through symbolic links, re-pointed file / directory links, damage
+                           and strictness changes; `C19X_change_behind_link_is_a_miss`;
+    * `C19_cex_resolved_origin` (recording the resolved path of an origin is unsound),
+      `C19_cex_defless_context_skipped` + `recordedKeep_all` (every analysed module's context is looked at,
+      also that of a module without a function or class of its own).
   The full statement `C19_full` is still FALSE (`C19_full_false`, from the wrongly trusted document;
   `C19_cex_threshold` is the second class); each `C19_cex_*` is replayed on the implementation.
 -/
 import RattrModel.Cache
 import RattrModel.CacheDeps
+import RattrModel.CacheRun
 import RattrModel.Generated.C19
 import RattrModel.Generated.C12
 import RattrProofs.Lemmas.C19Deps
@@ -1764,5 +1778,506 @@ example :
     [.missWritten, .hit, .noRun, .missWritten, .hit, .noRun, .missWritten, .hit] := by decide
 
 end ExD
+
+/-! ## Runs on a damaged cache file, strictness, symbolic links (RattrModel/CacheRun.lean) -/
+
+open Rattr.CacheRun
+
+section tieRun
+open Rattr.CacheRun
+
+/-- The gate announces each of its three `return False` with `error.info` and the default badness;
+the defaults are 0 / 1 / 5; `main` checks the badness after the analysis and before the write;
+`is_within_badness_threshold`, `State.badness`, `increment_badness` and the strict clause of
+`error.error` read as modelled. -/
+theorem tieA_gate_diagnostics :
+    Generated.C19.gateDiagnostics = CacheRun.gateDiagnosticsShape ∧
+    Generated.C19.errorDefaultBadness = CacheRun.defaultBadnessTable ∧
+    Generated.C19.withinShape = CacheRun.withinShape ∧
+    Generated.C19.badnessShape = CacheRun.badnessShape ∧
+    Generated.C19.incrementShape = CacheRun.incrementShape ∧
+    Generated.C19.strictErrorShape = CacheRun.strictErrorShape ∧
+    Generated.C19.mainBadnessShape = CacheRun.mainBadnessShape := by
+  refine ⟨rfl, by decide, rfl, rfl, rfl, rfl, rfl⟩
+
+/-- `Level.badness` is the generated table of defaults. -/
+theorem level_badness_table (l : Level) :
+    (l.name, l.badness) ∈ Generated.C19.errorDefaultBadness := by
+  cases l <;> decide
+
+/-- `GateLevels.real` is what the generated list of the gate's diagnostics says. -/
+theorem gate_levels_real :
+    Generated.C19.gateDiagnostics =
+      ["if not isfile(target):" ++ GateLevels.real.noTarget.name ++ ":default",
+       "if not isfile(cache_filepath):" ++ GateLevels.real.noCache.name ++ ":default",
+       "except Exception:" ++ GateLevels.real.malformed.name ++ ":default"] := by decide
+
+end tieRun
+
+section runB
+open Rattr.CacheRun
+variable {P H O X R : Type} [DecidableEq P] [DecidableEq H] [DecidableEq O]
+variable (D : Dir P H) (A : AnalysisB P H O X R)
+
+/-- The gate's own diagnostic costs nothing … -/
+theorem gateDiag_real_badness (w : World P H O X) (f : CacheFile P H O R) :
+    diagBadness (gateDiag .real D w f) = 0 := by
+  unfold gateDiag
+  split
+  · cases f with
+    | absent => rfl
+    | malformed => rfl
+    | crashing e => simp only; split <;> rfl
+    | valid d => rfl
+  · rfl
+
+/-- … and is never fatal, whatever the strictness. -/
+theorem gateDiag_real_not_fatal (lim : Limit) (w : World P H O X) (f : CacheFile P H O R) :
+    diagFatal lim (gateDiag .real D w f) = false := by
+  unfold gateDiag
+  split
+  · cases f with
+    | absent => cases lim <;> rfl
+    | malformed => cases lim <;> rfl
+    | crashing e => simp only; split <;> cases lim <;> rfl
+    | valid d => rfl
+  · cases lim <;> rfl
+
+/-- **With the levels of the code, a run with a cache file is `stepG` of the analysis whose `fails`
+is "import stage fails, or the analysis' own badness exceeds the limit"**: the gate contributes
+nothing to the badness, under any strictness option. -/
+theorem runB_real (s : State P H O X R) :
+    runB .real D A s = stepG D (A.toAnalysis 0) s .runWithCache := by
+  unfold runB stepG
+  cases hg : gate D s.world s.disk with
+  | fresh => rfl
+  | crash e => rfl
+  | stale =>
+    simp only [gateDiag_real_not_fatal, gateDiag_real_badness]
+    rfl
+
+theorem refreshB_eq (s : State P H O X R) :
+    refreshB D A s = stepG D (A.toAnalysis 0) s .forceRefresh := rfl
+
+theorem gate_damaged (w : World P H O X) (d : Damage) :
+    gate D w (d.toFile : CacheFile P H O R) = .stale := by
+  cases d with
+  | removed => unfold gate Damage.toFile; split <;> rfl
+  | notJson => unfold gate Damage.toFile; split <;> rfl
+  | raises e => exact gate_crashing D w e
+
+/-- **A run on a damaged cache file behaves exactly like a run without a cache file, under every
+strictness setting**: the same outcome — `missWritten` iff the from-scratch run (`plainRunOk`: no
+gate at all) succeeds, `missFatal` otherwise — and, when it succeeds, the same document on disk. -/
+theorem C19_damaged_as_absent (s : State P H O X R) (d : Damage) :
+    (runB .real D A { s with disk := d.toFile }).2 = (runB .real D A { s with disk := .absent }).2 ∧
+    (runB .real D A { s with disk := d.toFile }).2 =
+      (if plainRunOk A s.world then .missWritten else .missFatal) ∧
+    ((runB .real D A { s with disk := d.toFile }).2 = .missWritten →
+      (runB .real D A { s with disk := d.toFile }).1 =
+        { s with disk := .valid (make D (A.toAnalysis 0) s.world) }) := by
+  have hd : ∀ f : CacheFile P H O R, gate D s.world f = .stale →
+      runB .real D A { s with disk := f } =
+        (if plainRunOk A s.world then
+          ({ s with disk := .valid (make D (A.toAnalysis 0) s.world) }, .missWritten)
+         else ({ s with disk := f }, .missFatal)) := by
+    intro f hf
+    rw [runB_real]
+    unfold stepG plainRunOk
+    simp only [hf, analyse]
+    cases (A.toAnalysis 0).fails s.world <;> rfl
+  have ha : gate D s.world (.absent : CacheFile P H O R) = .stale := gate_damaged D s.world .removed
+  rw [hd _ (gate_damaged D s.world d), hd _ ha]
+  cases plainRunOk A s.world <;> simp
+
+/-- **… and the run after it finds a good cache**: the rewritten file is accepted by the very next
+run (nothing changed in between), whatever the damage was and whatever the strictness. -/
+theorem C19_damaged_then_hit (s : State P H O X R) (d : Damage)
+    (hT : D.isFile s.world.target = true) (hok : plainRunOk A s.world = true) :
+    (runB .real D A { s with disk := d.toFile }).2 = .missWritten ∧
+    runB .real D A (runB .real D A { s with disk := d.toFile }).1 =
+      ((runB .real D A { s with disk := d.toFile }).1, .hit) := by
+  obtain ⟨_, h2, h3⟩ := C19_damaged_as_absent D A s d
+  rw [hok] at h2
+  simp only [if_true] at h2
+  refine ⟨h2, ?_⟩
+  rw [h3 h2, runB_real]
+  have hu : Unchanged D (A.toAnalysis 0) s.world s.world := ⟨rfl, rfl, rfl, rfl, rfl, fun _ _ => rfl⟩
+  exact C19_hit_complete D (A.toAnalysis 0) ⟨s.world.target, s.world.target⟩
+    { s with disk := .valid (make D (A.toAnalysis 0) s.world) } s.world rfl hu hT
+
+/-- Whatever the levels: a run that ends in `fatal` leaves the state (the file on disk) as it was —
+so a run that is fatal BECAUSE of the file on disk is fatal again, for ever. -/
+theorem runB_missFatal_state (G : GateLevels) (s : State P H O X R)
+    (h : (runB G D A s).2 = .missFatal) : (runB G D A s).1 = s := by
+  unfold runB at h ⊢
+  cases hg : gate D s.world s.disk with
+  | fresh => simp [hg] at h
+  | crash e => simp [hg] at h
+  | stale =>
+    simp only [hg] at h ⊢
+    split
+    · rfl
+    · rename_i hnf
+      simp only [hnf] at h
+      unfold analyse at h ⊢
+      split
+      · rfl
+      · rename_i hnf2
+        simp [hnf2] at h
+
+theorem runB_stuck (G : GateLevels) (s : State P H O X R)
+    (h : (runB G D A s).2 = .missFatal) (n : Nat) :
+    ∀ fs : LinkFs P H, outsX G D A { fs := fs, st := s } (List.replicate n .runWithCache) =
+      List.replicate n .missFatal := by
+  induction n with
+  | zero => intro fs; rfl
+  | succ k ih =>
+    intro fs
+    simp only [List.replicate_succ, outsX, stepX]
+    rw [h, runB_missFatal_state D A G s h]
+    exact congrArg _ (ih fs)
+
+end runB
+
+section machineX
+open Rattr.CacheRun
+variable {P H O X R : Type} [DecidableEq P] [DecidableEq H] [DecidableEq O]
+variable (D : Dir P H) (A : AnalysisB P H O X R)
+
+theorem stepX_inv (lw : Option (World P H O X)) (s : StateX P H O X R) (o : OpX P H O X)
+    (h : DiskInvG D (A.toAnalysis 0) true lw s.st.disk) :
+    DiskInvG D (A.toAnalysis 0) true
+      (if (stepX .real D A s o).2 = .missWritten then some s.st.world else lw)
+      (stepX .real D A s o).1.st.disk := by
+  cases o with
+  | write q c => simpa [stepX, StateX.withFs] using h
+  | relink ps => simpa [stepX, StateX.withFs] using h
+  | setOptions o x => simpa [stepX] using h
+  | damage d =>
+    obtain ⟨_, hk⟩ := h
+    refine ⟨?_, by simpa [stepX] using hk⟩
+    cases d with
+    | removed => exact Or.inl rfl
+    | notJson => exact Or.inr (Or.inl rfl)
+    | raises e => exact Or.inr (Or.inr (Or.inl ⟨rfl, e, rfl⟩))
+  | runWithCache =>
+    simp only [stepX, runB_real]
+    exact stepG_inv D (A.toAnalysis 0) true lw s.st .runWithCache h
+  | forceRefresh =>
+    simp only [stepX, refreshB_eq]
+    exact stepG_inv D (A.toAnalysis 0) true lw s.st .forceRefresh h
+
+/-- **History invariant with links, damage and strictness**: after any sequence of in-place edits
+(seen through every link), re-pointed links, option changes (hashed or not, strictness included),
+damage to the cache file, runs and forced refreshes, the file on disk is absent, not a document, or
+the document of the last run that wrote it. -/
+theorem C19X_history (ops : List (OpX P H O X)) :
+    ∀ (lw : Option (World P H O X)) (s : StateX P H O X R),
+      DiskInvG D (A.toAnalysis 0) true lw s.st.disk →
+      DiskInvG D (A.toAnalysis 0) true (lastWrittenX .real D A lw s ops)
+        (execX .real D A s ops).st.disk := by
+  induction ops with
+  | nil => intro lw s h; exact h
+  | cons o os ih =>
+    intro lw s h
+    simp only [lastWrittenX, execX]
+    exact ih _ _ (stepX_inv D A lw s o h)
+
+/-- **Hit soundness over these histories.** -/
+theorem C19X_hit_sound (lw : Option (World P H O X)) (s0 : StateX P H O X R)
+    (ops : List (OpX P H O X)) (h0 : DiskInvG D (A.toAnalysis 0) true lw s0.st.disk)
+    (hit : (stepX .real D A (execX .real D A s0 ops) .runWithCache).2 = .hit) :
+    ∃ wk, lastWrittenX .real D A lw s0 ops = some wk ∧ (A.toAnalysis 0).fails wk = false ∧
+      (execX .real D A s0 ops).st.disk = .valid (make D (A.toAnalysis 0) wk) ∧
+      Unchanged D (A.toAnalysis 0) wk (execX .real D A s0 ops).st.world ∧
+      (FrameOK D (A.toAnalysis 0) →
+        (execX .real D A s0 ops).st.disk =
+          .valid (make D (A.toAnalysis 0) (execX .real D A s0 ops).st.world) ∧
+        (make D (A.toAnalysis 0) wk).results = A.fresh (execX .real D A s0 ops).st.world) := by
+  obtain ⟨hinv, hk⟩ := C19X_history D A ops lw s0 h0
+  simp only [stepX, runB_real] at hit
+  have hit' : (step D (A.toAnalysis 0)
+      ⟨(execX .real D A s0 ops).st.world.target, (execX .real D A s0 ops).st.world.target⟩
+      (execX .real D A s0 ops).st .runWithCache).2 = .hit := hit
+  obtain ⟨wk, hlw, hd, hu, _⟩ := hit_unchanged D (A.toAnalysis 0) _ true _ _ hinv hit'
+  refine ⟨wk, hlw, hk wk hlw, hd, hu, ?_⟩
+  intro F
+  have := make_eq_of_unchanged_ok D (A.toAnalysis 0) F wk _ (hk wk hlw) hu
+  refine ⟨by rw [hd, this], ?_⟩
+  rw [← this]
+  rfl
+
+/-- What C19 demands of one run with a cache file, strictness included in `fails`. -/
+def RunOKX (s : StateX P H O X R) : Prop :=
+  match (stepX .real D A s .runWithCache).2 with
+  | .hit => s.st.disk = .valid (make D (A.toAnalysis 0) s.st.world)
+  | .missWritten =>
+    (stepX .real D A s .runWithCache).1.st.disk = .valid (make D (A.toAnalysis 0) s.st.world)
+  | .missFatal => plainRunOk A s.st.world = false
+  | .crash _ => False
+  | .noRun => False
+
+/-- **C19, the part that holds, with links, damage and strictness.** From no cache (or a file that is
+not one), after every such history: no traceback; a hit means the file on disk is what a
+from-scratch run would write now; a miss leaves exactly that on disk unless the from-scratch run
+itself is fatal (import stage, or the analysis' own badness over the limit) — in particular a
+damaged file never makes a run fail that would succeed without it. -/
+theorem C19X_partial (F : FrameOK D (A.toAnalysis 0)) (s0 : StateX P H O X R)
+    (ops : List (OpX P H O X))
+    (h0 : s0.st.disk = .absent ∨ s0.st.disk = .malformed ∨ ∃ e, s0.st.disk = .crashing e) :
+    RunOKX D A (execX .real D A s0 ops) := by
+  unfold RunOKX
+  have hstep : (stepX .real D A (execX .real D A s0 ops) .runWithCache) =
+      ({ execX .real D A s0 ops with
+          st := (stepG D (A.toAnalysis 0) (execX .real D A s0 ops).st .runWithCache).1 },
+        (stepG D (A.toAnalysis 0) (execX .real D A s0 ops).st .runWithCache).2) := by
+    simp only [stepX, runB_real]
+  rcases stepG_run_cases D (A.toAnalysis 0) (execX .real D A s0 ops).st with
+    ⟨_, hs⟩ | ⟨e, hg, hs⟩ | ⟨_, hf, hs⟩ | ⟨_, _, hs⟩
+  · have hit : (stepX .real D A (execX .real D A s0 ops) .runWithCache).2 = .hit := by
+      rw [hstep, hs]
+    obtain ⟨wk, _, _, _, _, hF⟩ :=
+      C19X_hit_sound D A none s0 ops (diskInvG_init D (A.toAnalysis 0) s0.st h0) hit
+    rw [hit]
+    exact (hF F).1
+  · exact absurd hg (gate_no_crash D _ _ e)
+  · rw [hstep, hs]
+    simp only [plainRunOk, hf, Bool.not_true]
+  · rw [hstep, hs]
+
+/-- **A change behind a link is noticed.** If the cache on disk was written in world `wk`, and the
+content now read THROUGH a recorded origin `p` (a link that was re-pointed, or a link whose target was
+edited in place — `world.contents` is `LinkFs.view`) differs from the content at write time, the run
+is not a hit. -/
+theorem C19X_change_behind_link_is_a_miss (s : StateX P H O X R) (wk : World P H O X)
+    (hd : s.st.disk = .valid (make D (A.toAnalysis 0) wk)) (p : P)
+    (hp : p ∈ A.recorded wk) (hf : D.isFile p = true)
+    (hne : s.st.world.contents p ≠ wk.contents p) :
+    (stepX .real D A s .runWithCache).2 ≠ .hit := by
+  intro hit
+  simp only [stepX, runB_real] at hit
+  have hinv : DiskInv D (A.toAnalysis 0) true (some wk) s.st.disk :=
+    Or.inr (Or.inr (Or.inr ⟨wk, rfl, hd⟩))
+  have hit' : (step D (A.toAnalysis 0) ⟨s.st.world.target, s.st.world.target⟩ s.st
+      .runWithCache).2 = .hit := hit
+  obtain ⟨wk', hlw, _, hu, _⟩ := hit_unchanged D (A.toAnalysis 0) _ true _ _ hinv hit'
+  cases hlw
+  have := hu.2.2.2.2.2 p hp
+  unfold hashFile at this
+  simp only [hf, if_true] at this
+  exact hne this.symm
+
+/-- A re-pointed link changes what is read through it (and nothing else). -/
+theorem view_relink (fs : LinkFs P H) (ps : List (P × P)) (p q : P) (h : lookupP p ps = some q) :
+    (fs.relink ps).view p = fs.files q := by
+  simp [LinkFs.view, LinkFs.relink, h]
+
+theorem view_relink_other (fs : LinkFs P H) (ps : List (P × P)) (p : P) (h : lookupP p ps = none) :
+    (fs.relink ps).view p = fs.view p := by
+  simp [LinkFs.view, LinkFs.relink, h]
+
+/-- An in-place edit of a real file is seen through every path that leads to it. -/
+theorem view_write (fs : LinkFs P H) (q : P) (c : H) (p : P) :
+    (fs.write q c).view p = if fs.resolve p = q then c else fs.view p := by
+  simp [LinkFs.view, LinkFs.write]
+
+end machineX
+
+section depsX
+open Rattr.CacheRun
+variable {ω H X R : Type} [DecidableEq ω] [DecidableEq H]
+variable (S : Static ω H) (D : Dir ω H)
+
+theorem depsAnalysisB_toAnalysis (freshP : W ω H X → R) (badnessP : W ω H X → Nat)
+    (limitP : X → Limit) :
+    (depsAnalysisB S D freshP badnessP limitP).toAnalysis 0 =
+      depsAnalysis S D freshP (fun w => !within (0 + badnessP w) (limitP w.other)) := rfl
+
+/-- **C19 for the modelled dependency computation over histories with links, damage and
+strictness**, under `FreshFrame` only. -/
+theorem C19X_deps_partial (hb : BuiltinsUnreadable S = true) (freshP : W ω H X → R)
+    (badnessP : W ω H X → Nat) (limitP : X → Limit) (hF : FreshFrame S D freshP)
+    (s0 : StateX ω H ArgsKey X R) (ops : List (OpX ω H ArgsKey X))
+    (h0 : s0.st.disk = .absent ∨ s0.st.disk = .malformed ∨ ∃ e, s0.st.disk = .crashing e) :
+    RunOKX D (depsAnalysisB S D freshP badnessP limitP)
+      (execX .real D (depsAnalysisB S D freshP badnessP limitP) s0 ops) := by
+  apply C19X_partial D _ _ s0 ops h0
+  rw [depsAnalysisB_toAnalysis]
+  exact deps_frameOK S D hb freshP _ hF
+
+/-- The code looks at the context of EVERY analysed module (`keep = fun _ => true`). -/
+theorem recordedKeep_all (w : W ω H X) : recordedKeep (fun _ => true) S D w = recorded S D w := by
+  unfold recordedKeep recorded
+  congr 1
+  exact List.filter_eq_self.mpr (fun _ _ => rfl)
+
+end depsX
+
+/-! ### Concrete instances: strictness × damage, links, modules without definitions -/
+namespace ExX
+open Rattr.CacheRun
+
+def D : Dir Nat Nat := { isFile := fun _ => true, emptyHash := 0 }
+
+/-- Target `0` imports the module at path `5`; results = what is read there; the analysis' own
+badness is the un-hashed option's first component, the limit its second. -/
+def A (b : Nat) (lim : Limit) : AnalysisB Nat Nat Nat Nat (List Nat) :=
+  { fresh := fun w => [w.contents w.target, w.contents 5]
+    recorded := fun _ => [5]
+    readSet := fun w => [w.target, 5]
+    stageFails := fun _ => false
+    badness := fun _ => b
+    limit := fun _ => lim }
+
+/-- `5` is a symbolic link to the regular file `10` (it can be re-pointed to `11`). -/
+def fs0 : LinkFs Nat Nat :=
+  { files := fun p => if p = 10 then 100 else if p = 11 then 110 else p
+    resolve := fun p => if p = 5 then 10 else p }
+
+def s0 : StateX Nat Nat Nat Nat (List Nat) :=
+  { fs := fs0
+    st := { world := { target := 0, contents := fs0.view, opts := 1, other := 0, version := 1, plugins := 1 }
+            disk := .absent } }
+
+def warn : GateLevels := { GateLevels.real with malformed := .warning }
+
+/-- [test] a clean target under `--strict`, and a target of badness 2 under `--threshold 2`: the cache
+file is damaged between two runs — re-analysed, rewritten, then a hit; under `--threshold 1` the
+second target is fatal with or without the file. -/
+example :
+    outsX .real D (A 0 .strict) s0
+      [.runWithCache, .damage .notJson, .runWithCache, .runWithCache,
+       .damage (.raises .typeError), .runWithCache, .damage .removed, .runWithCache, .runWithCache] =
+      [.missWritten, .noRun, .missWritten, .hit, .noRun, .missWritten, .noRun, .missWritten, .hit] ∧
+    outsX .real D (A 2 (.threshold 2)) s0 [.runWithCache, .damage .notJson, .runWithCache, .runWithCache] =
+      [.missWritten, .noRun, .missWritten, .hit] ∧
+    outsX .real D (A 2 (.threshold 1)) s0 [.runWithCache, .damage .notJson, .runWithCache] =
+      [.missFatal, .noRun, .missFatal] ∧
+    plainRunOk (A 2 (.threshold 1)) s0.st.world = false ∧
+    plainRunOk (A 2 (.threshold 2)) s0.st.world = true := by decide
+
+/-- [test] links: re-pointing the link, and editing the link's target in place, are both noticed; an
+edit of the file the link no longer points to is not a change. -/
+example :
+    outsX .real D (A 0 .strict) s0
+      [.runWithCache, .runWithCache, .relink [(5, 11)], .runWithCache, .runWithCache,
+       .write 11 7, .runWithCache, .runWithCache, .write 10 8, .runWithCache,
+       .relink [(5, 10)], .runWithCache] =
+      [.missWritten, .hit, .noRun, .missWritten, .hit, .noRun, .missWritten, .hit, .noRun, .hit,
+       .noRun, .missWritten] := by decide
+
+end ExX
+
+/-- The frame hypothesis holds for the example analysis (non-vacuity of `C19X_partial`). -/
+theorem ExX_frameOK (b : Nat) (lim : Limit) : FrameOK ExX.D ((ExX.A b lim).toAnalysis 0) where
+  frame := by
+    intro w w' _ ht _ _ _ hc
+    refine ⟨?_, rfl⟩
+    have h5 := hc 5 (by simp [AnalysisB.toAnalysis, ExX.A]) rfl
+    have ht' := hc w.target (by simp [AnalysisB.toAnalysis, ExX.A])
+    show [w'.contents w'.target, w'.contents 5] = [w.contents w.target, w.contents 5]
+    rw [ht, h5]
+    rw [ht' rfl]
+  covers := by
+    intro w _ p hp
+    simp only [AnalysisB.toAnalysis, ExX.A, List.mem_cons, List.not_mem_nil, or_false] at hp ⊢
+    rcases hp with rfl | rfl
+    · exact Or.inl rfl
+    · exact Or.inr rfl
+
+/-- [non-vacuity] `C19X_partial` applies to the example: after a history with a re-pointed link, an
+edit through it, damage and a strictness change, the run satisfies `RunOKX`. -/
+example : RunOKX ExX.D (ExX.A 2 (.threshold 2))
+    (execX .real ExX.D (ExX.A 2 (.threshold 2)) ExX.s0
+      [.runWithCache, .relink [(5, 11)], .runWithCache, .write 11 3, .damage .notJson, .setOptions 1 7]) :=
+  C19X_partial ExX.D _ (ExX_frameOK 2 (.threshold 2)) ExX.s0 _ (Or.inl rfl)
+
+/-- **Counterexample class (seeded change, NOT the code): a diagnostic of positive badness on the
+malformed-file path.** With `error.warning` there, a damaged cache file makes the `--strict` run of a
+clean target — and the `--threshold 2` run of a target of badness 2 — fatal, the file is never
+rewritten and every later run fails the same way, while the run without a cache file succeeds. -/
+theorem C19_cex_malformed_warning :
+    outsX ExX.warn ExX.D (ExX.A 0 .strict) ExX.s0
+      [.runWithCache, .damage .notJson, .runWithCache, .runWithCache, .runWithCache] =
+      [.missWritten, .noRun, .missFatal, .missFatal, .missFatal] ∧
+    outsX ExX.warn ExX.D (ExX.A 2 (.threshold 2)) ExX.s0
+      [.runWithCache, .damage (.raises .classValidation), .runWithCache, .runWithCache] =
+      [.missWritten, .noRun, .missFatal, .missFatal] ∧
+    CacheRun.plainRunOk (ExX.A 0 .strict) ExX.s0.st.world = true ∧
+    CacheRun.plainRunOk (ExX.A 2 (.threshold 2)) ExX.s0.st.world = true ∧
+    -- the missing-file path is untouched: first runs are fine
+    outsX ExX.warn ExX.D (ExX.A 0 .strict) ExX.s0 [.damage .removed, .runWithCache, .runWithCache] =
+      [.noRun, .missWritten, .hit] := by decide
+
+/-- The same class with `error.error`: fatal inside the gate under `--strict`. -/
+theorem C19_cex_malformed_error :
+    outsX { CacheRun.GateLevels.real with malformed := .error } ExX.D (ExX.A 0 .strict) ExX.s0
+      [.runWithCache, .damage .notJson, .runWithCache, .runWithCache] =
+      [.missWritten, .noRun, .missFatal, .missFatal] := by decide
+
+namespace ExX
+
+/-- `make_cacheable_results` recording the RESOLVED path of each origin (NOT the code). -/
+def makeResolved (fs : LinkFs Nat Nat) (w : World Nat Nat Nat Nat) : Doc Nat Nat Nat (List Nat) :=
+  { make D ((A 0 .strict).toAnalysis 0) w with
+    imports := (((A 0 .strict).toAnalysis 0).recorded w).map (fun p => (fs.resolve p, hashFile D w p)) }
+
+def w1 : World Nat Nat Nat Nat := { s0.st.world with contents := (fs0.relink [(5, 11)]).view }
+
+end ExX
+
+/-- **Counterexample class (seeded change, NOT the code): the cache records the resolved path of a
+module file that is a symbolic link.** After the link is re-pointed the recorded file is unchanged, the
+gate answers "up-to-date", and a from-scratch run gives other results; the document the code writes
+(origin as found on the search path) is stale. -/
+theorem C19_cex_resolved_origin :
+    gate ExX.D ExX.w1 (.valid (ExX.makeResolved ExX.fs0 ExX.s0.st.world)) = .fresh ∧
+    (ExX.makeResolved ExX.fs0 ExX.s0.st.world).results ≠ (ExX.A 0 .strict).fresh ExX.w1 ∧
+    gate ExX.D ExX.w1
+      (.valid (make ExX.D ((ExX.A 0 .strict).toAnalysis 0) ExX.s0.st.world)) = .stale := by decide
+
+namespace ExP
+
+/-- `t.py: from pkg import thing`, `pkg/__init__.py: from pkg.impl import thing` (no function or
+class of its own), `pkg/impl.py: def thing …`. -/
+def S : Static Str Nat :=
+  { mods := [⟨str "pkg", some (str "pkg/__init__.py"), true⟩,
+             ⟨str "pkg.impl", some (str "pkg/impl.py"), true⟩]
+    originStr := id
+    reMatch := fun p t => decide (p = t)
+    isStdlib := fun _ => false
+    permanent := [str "rattr"]
+    builtins := str "built-in"
+    importsOf := fun o _ =>
+      if o = str "t.py" then [(str "pkg", some (str "pkg"))]
+      else if o = str "pkg/__init__.py" then [(str "pkg.impl", some (str "pkg.impl"))]
+      else []
+    fuel := 10 }
+
+def D : Dir Str Nat := { isFile := fun _ => true, emptyHash := 0 }
+
+def w : W Str Nat Nat :=
+  { target := str "t.py", contents := fun _ => 1, opts := argsKey (str "@") ⟨1, [], []⟩, other := 0,
+    version := 1, plugins := 1 }
+
+/-- [test] the package is followed through its `__init__`, both files are read and recorded; a
+pattern matching the ORIGIN of the package excludes the sub-module too (`derive_module_names_right`). -/
+example :
+    (run S D w).state.analysed = [str "pkg", str "pkg.impl"] ∧
+    readSet S D w = [str "t.py", str "pkg/__init__.py", str "pkg/impl.py"] ∧
+    recorded S D w = [str "pkg/__init__.py", str "pkg/impl.py"] ∧
+    blacklisted S [str "pkg/__init__.py"] (str "pkg.impl") = true ∧
+    blacklisted S [str "pkg"] (str "pkg.impl") = false := by decide
+
+end ExP
+
+/-- **Counterexample class (seeded change, NOT the code): the context of a module without a function
+or class of its own is left out** (its `FileIr` is an empty mapping, hence falsy). The module reached
+only through it is read but not recorded: `deps_covers` fails for that variant. -/
+theorem C19_cex_defless_context_skipped :
+    str "pkg/impl.py" ∈ readSet ExP.S ExP.D ExP.w ∧
+    str "pkg/impl.py" ∉ CacheRun.recordedKeep (fun n => n != str "pkg") ExP.S ExP.D ExP.w ∧
+    str "pkg/impl.py" ∈ recorded ExP.S ExP.D ExP.w := by decide
 
 end Rattr.C19
